@@ -86,6 +86,11 @@ theorem codeAt_append {C : Code} {pc : Nat} {a b : List Instr} :
 
 /-! ### lengths -/
 
+theorem hitsHead_shape (l : Option Label) (rest : List BI) : hitsHeadS l (rest.map BI.shape) = hitsHead l rest := by
+  cases rest with
+  | nil => rfl
+  | cons y ys => cases y <;> rfl
+
 theorem findBrk_exitLen (l : Option Label) (b : Bool) (ctx : List BI) :
     exitLen l b (ctx.map BI.shape) = (findBrk l b ctx).map (fun p => p.1.length) := by
   induction ctx with
@@ -117,6 +122,18 @@ theorem findBrk_exitLen (l : Option Label) (b : Bool) (ctx : List BI) :
       cases findBrk l b rest with
       | none => rfl
       | some p => simp
+    | iscope =>
+      have hh : hitsHeadS l (rest.map BI.shape) = hitsHead l rest := by
+        cases rest with
+        | nil => rfl
+        | cons y ys => cases y <;> rfl
+      simp only [List.map_cons, BI.shape, exitLen, findBrk, ih, hh]
+      cases findBrk l b rest with
+      | none => rfl
+      | some p =>
+        by_cases hc : (!b && hitsHead l rest) = true
+        · simp [hc]
+        · simp [hc]
 
 theorem retExitsS_length (ctx : List BI) : (retExitsS ctx).length = retLen (ctx.map BI.shape) := by
   induction ctx with
